@@ -15,6 +15,8 @@ Rewrites (complete list of the differences to the code that runs in production):
       stub replaces a dotted global reference such as cv2.resize -> __vf_stub_cv2_resize
   R5  comparisons  a < b  etc.      -> __vf_cmp('<', a, b)   (elementwise-symbolic on object arrays; identical
       to the Python operator otherwise).  Chained comparisons are left untouched.
+  R6  true division  a / b          -> __vf_div(a, b)   (in symbolic mode the quotient of two plain integers is the exact
+      rational instead of its rounded double — the real-number semantics of assumption A1; identical to a / b otherwise)
 Nothing is dropped.
 """
 from __future__ import annotations
@@ -87,6 +89,12 @@ class _Rewriter(ast.NodeTransformer):
         if isinstance(f, ast.Name) and f.id in BUILTIN_SHIMS and self._is_global(f.id):
             self.used.add(f.id)
             node.func = ast.copy_location(ast.Name("__vf_" + f.id, ast.Load()), f)
+        return node
+
+    def visit_BinOp(self, node):
+        self.generic_visit(node)
+        if isinstance(node.op, ast.Div):
+            return ast.copy_location(ast.Call(func=ast.Name("__vf_div", ast.Load()), args=[node.left, node.right], keywords=[]), node)
         return node
 
     def visit_Compare(self, node):
@@ -208,6 +216,7 @@ def instrument_function(fn, stubs=None):
     g.setdefault("__vf_math", _MATH)
     g.setdefault("__vf_astype", symnp.astype)
     g.setdefault("__vf_cmp", symnp.vf_cmp)
+    g.setdefault("__vf_div", symnp.vf_div)
     for k, v in BUILTIN_SHIMS.items():
         g.setdefault("__vf_" + k, v)
     for k, v in stubs.items():
